@@ -417,6 +417,16 @@ def rule_byte_cuts(ctx):
                 recv_name = render(strip(sp[0]["recv"])) if len(sp) == 1 else "?"
                 ok = len(sp) == 1 and (sgrep.has(fn["body"], "while !__s.is_char_boundary(__i) { __i -= 1; }", None, {"__s": recv_name, "__i": idx_name}) or sgrep.has(fn["body"], "__s.floor_char_boundary(__n)", sgrep.lets(fn["body"]), {"__s": recv_name}))
                 det = "split index moved back to a character boundary before split_at"
+                # progress: nothing else moves the index (a character boundary within 4 bytes below a positive limit is
+                # positive, so each round removes at least one byte; any other decrement can reach 0 and loop forever)
+                moves = [x for x in walk(fn["body"]) if (x["k"] in ("Assign", "AssignOp") or (x["k"] == "Binary" and x.get("op", "").endswith("=") and x["op"] not in ("==", "!=", "<=", ">="))) and render(strip(x["l"])).replace(" ", "") == idx_name]
+                inside = 0
+                for w_ in walk(fn["body"]):
+                    if w_["k"] == "While" and "is_char_boundary" in render(w_["cond"]):
+                        inside += sum(1 for x in walk(w_["body"]) if any(x is m_ for m_ in moves))
+                if ok and len(moves) != inside:
+                    ok = False
+                    det = "the split index is also moved outside the character-boundary loop (%d assignment(s)): it can reach 0, then no byte is consumed and the loop never ends" % (len(moves) - inside)
             ctx.check(R, key, ok, det or "split_string not found", (s[2], s[3]))
         elif len(s[4]) > 1 and "RangeFull" in s[4][1]:
             ctx.ok(R, key, "full range: no cut", (s[2], s[3]))
